@@ -163,6 +163,12 @@ func refProjection(v ssa.Value) (p *ssa.Parameter, k int64, onField, ok bool) {
 			}
 			base = sts[0].Val
 			continue
+		case *ssa.Parameter:
+			// the entry itself is handed over: func less(a, b [2]string) bool
+			if arr, isArr := y.Type().Underlying().(*types.Array); isArr && arr.Len() == 2 && isStringType(arr.Elem()) {
+				return y, idxConst, false, true
+			}
+			return nil, 0, false, false
 		case *ssa.IndexAddr:
 			q, isP := y.Index.(*ssa.Parameter)
 			if !isP {
@@ -260,6 +266,17 @@ func (le *lessEval) run(fn *ssa.Function, em map[*ssa.Parameter]int, o1, o0 int,
 						em2[g.Params[ai]] = id
 					}
 				}
+				// the entry at a position is handed over by value: less(list[x], list[y])
+				if u, isU := strip(a).(*ssa.UnOp); isU && u.Op == token.MUL && ai < len(g.Params) {
+					if ia, isIA := u.X.(*ssa.IndexAddr); isIA && isEntryList(ia.X.Type()) {
+						if q, isP := ia.Index.(*ssa.Parameter); isP {
+							if id, has := em[q]; has {
+								em2[g.Params[ai]] = id
+								le.offField = true
+							}
+						}
+					}
+				}
 			}
 			if len(em2) != 2 {
 				return false, false
@@ -327,7 +344,7 @@ func (e *Engine) sortSites(fn *ssa.Function) []sortAlternative {
 			if !ok {
 				return
 			}
-			if f := fieldOf(st.Addr); f != nil && f.Name() == "sortedRefs" && strip(st.Val) == v {
+			if f := fieldOf(st.Addr); f != nil && f.Name() == "sortedRefs" && (strip(st.Val) == v || sameCell(strip(st.Val), v)) {
 				becomes = true
 			}
 		})
@@ -1301,4 +1318,15 @@ func c02R15(e *Engine) {
 	if n < 5 {
 		e.fail("R15", "count:R15", "-", "only %d engine functions on the search path", n)
 	}
+}
+
+// sameCell: two loads of one local variable that lives in memory (it is captured by a closure).
+func sameCell(a, b ssa.Value) bool {
+	ua, ok1 := a.(*ssa.UnOp)
+	ub, ok2 := b.(*ssa.UnOp)
+	if !ok1 || !ok2 || ua.Op != token.MUL || ub.Op != token.MUL {
+		return false
+	}
+	al, ok := ua.X.(*ssa.Alloc)
+	return ok && ub.X == ssa.Value(al)
 }
